@@ -230,3 +230,318 @@ Example ex_index_growth_hyps :
   1 <= 128 < two64 /\ two64 <= 128 * 2 ^ N.of_nat 57 /\ 100 <= 128 /\ (exists q, 128 = 128 * q) /\
   grow 57 128 1000 100 = Ok 2048.
 Proof. vm_compute. repeat split; try discriminate. exists 1. reflexivity. Qed.
+
+(* ==================================================================================================== *)
+(* CompOpt (session 3): compressor configuration and the on-disk compressor options block.             *)
+(*                                                                                                      *)
+(* Models (coq/CompOpt/Model.v, Parse.v; constants regenerated into CompOpt/GenCompOpt.v):              *)
+(*   compressor.c  sqfs_compressor_config_init / sqfs_compressor_create / sqfs_generic_{write,read}_options *)
+(*   gzip.c xz.c lzma.c lz4.c zstd.c  *_create checks, *_write_options, *_read_options, *_get_configuration *)
+(*   comp_opt.c compressor_cfg_init_options, parse_size.c, parse_int.c, getsubopt / strtol              *)
+(*   sqfsdiff.c: how a reader opens the compressor and its options block ([open_image])                 *)
+(* [fixes]: [as_found] = the tree as it is; [repaired] = with props/C05/fixes/F26, F27, F28.            *)
+(* Statements quantify over the variant [fx] unless a finding is about one of them.                     *)
+(* ==================================================================================================== *)
+From SqfsV Require Import CompOpt.GenCompOpt CompOpt.Model CompOpt.Parse CompOpt.BaseLemmas CompOpt.CreateProofs
+  CompOpt.RoundTrip CompOpt.ReadProofs CompOpt.ParseProofs CompOpt.Top.
+
+(* ---- the options block round trip ----
+   For every configuration create accepts (block size one a super block can carry): write_options writes nothing
+   exactly for the defaults, else exactly the block doc/format.adoc describes ([fmt_block (fmt_payload st)]: 16 bit
+   header with bit 15 set, little endian fields); the reading side (default uncompressor for the same id and block
+   size, as every tool creates it) accepts that block, recovers every option field the block carries ([kept]: gzip
+   level / window / strategies, xz dictionary size / filters) and ends in a configuration create accepts again.
+   When nothing is written the reader's defaults are the writer's values. *)
+Theorem comp_options_rt : forall fx avail c st pre tail,
+  compressor_create fx avail c = Ok st -> In (c_bs c) block_sizes -> lenN pre = sizeof_sqfs_super_t ->
+  exists st0, reader_default fx avail (c_id c) (c_bs c) = Ok st0 /\
+    write_options st = Ok (if is_default st then [] else fmt_block (fmt_payload st)) /\
+    (if is_default st then kept st0 = kept st
+     else exists st1, read_options fx st0 (pre ++ fmt_block (fmt_payload st) ++ tail) = (Ok tt, st1) /\
+          kept st1 = kept st /\
+          exists st2, compressor_create fx avail (get_configuration st1) = Ok st2 /\ kept st2 = kept st).
+Proof. exact comp_options_rt_l. Qed.
+Print Assumptions comp_options_rt.
+
+Theorem comp_write_none_iff : forall st, write_options st = Ok [] <-> is_default st = true.
+Proof. exact comp_write_none_iff_l. Qed.
+Print Assumptions comp_write_none_iff.
+
+(* the configuration sqfs_compressor_config_init makes is the one nothing is written for (lz4 always writes; xz with
+   a block size below the minimal dictionary size writes although nothing was asked for: ex_xz_4096_default_writes) *)
+Theorem comp_default_writes_nothing : forall fx avail id bs st,
+  In bs block_sizes -> id <> ID_LZ4 -> (id = ID_XZ -> co_SQFS_XZ_MIN_DICT_SIZE <= bs) ->
+  compressor_create fx avail (snd (config_init id bs 0)) = Ok st -> write_options st = Ok [].
+Proof. exact comp_default_writes_nothing_l. Qed.
+Print Assumptions comp_default_writes_nothing.
+
+(* ---- C05's clause for the options block: EVERY byte string, every compressor object ----
+   read_options never leaves its 64 byte buffer or the bytes the file delivered ([Crash]), has no loop
+   ([OutOfFuel] does not occur), and answers 0 or one of four error codes *)
+Theorem comp_read_options_safe : forall fx st img,
+  fst (read_options fx st img) <> Crash /\ fst (read_options fx st img) <> OutOfFuel.
+Proof. exact comp_read_options_safe_l. Qed.
+Print Assumptions comp_read_options_safe.
+
+Theorem comp_read_options_total : forall fx st img, verdict_ok (fst (read_options fx st img)).
+Proof. exact read_options_verdict. Qed.
+Print Assumptions comp_read_options_total.
+
+(* an accepted block leaves a configuration that passes create's validation -- for xz under the hypothesis that the
+   dictionary size is inside create's range: xz_read_options does not test it (xz_read_accepts_create_rejects_refuted) *)
+Theorem comp_read_accepts_valid : forall fx avail c st img st',
+  compressor_create fx avail c = Ok st -> read_options fx st img = (Ok tt, st') ->
+  (forall s, st' = SXz s -> co_SQFS_XZ_MIN_DICT_SIZE <= xz_dictsz s <= co_SQFS_XZ_MAX_DICT_SIZE) ->
+  exists st2, compressor_create fx avail (get_configuration st') = Ok st2.
+Proof. exact comp_read_accepts_valid_l. Qed.
+Print Assumptions comp_read_accepts_valid.
+
+(* the whole opening sequence of a reader (super block, sqfs_compressor_create, options block if flagged) on every
+   byte list, next to reader_safe for everything behind it *)
+Theorem reader_with_options_safe :
+  forall fx avail codec depth efuel fuel img q, codecs_ok codec ->
+  Forall (fun i => item_crash i = false) (run_reader_build avail codec depth efuel fuel img q) /\
+  opened_ok (open_image fx avail img).
+Proof. exact reader_with_options_safe_l. Qed.
+Print Assumptions reader_with_options_safe.
+
+Theorem open_image_unavailable : forall fx avail img s,
+  super_read img = Ok s -> avail (s_comp s) = false -> open_image fx avail img = OCreateErr (Err E_UNSUPPORTED).
+Proof. exact open_image_unavailable_l. Qed.
+Print Assumptions open_image_unavailable.
+
+(* ---- the -X option string ----
+   whatever the string (or NULL): the parser terminates within the fuel it is given, and either fails with a
+   diagnostic or returns a configuration whose fields are inside the documented ranges (lc + lp <= 4 included) ... *)
+Theorem comp_opt_string_total : forall fx id bs o, cfg_init_options fx id bs o <> PFuel.
+Proof. exact comp_opt_string_total_l. Qed.
+Print Assumptions comp_opt_string_total.
+
+(* ... which create accepts -- for xz / lzma provided the dictionary size has a shape create accepts (the parser only
+   tests the range 8 KiB .. 1 MiB; "dictsize=9000" is refused by create, not by the parser) and lies in the range
+   (always, when the block size is one a super block can carry); lzo is parsed but never in create's table *)
+Theorem comp_opt_string_sound : forall fx avail id bs o c,
+  cfg_init_options fx id bs o = POk c ->
+  opts_in_range id bs c /\
+  (avail id = true ->
+   (id = ID_GZIP \/ id = ID_LZ4 \/ id = ID_ZSTD \/
+    (id = ID_XZ /\ is_dict_size_valid fx (xz_dict c) = true /\ dict_range_ok (xz_dict c)) \/
+    (id = ID_LZMA /\ dict_shape_ok (xz_dict c) = true /\ dict_range_ok (xz_dict c))) ->
+   exists st, compressor_create fx avail c = Ok st).
+Proof. exact comp_opt_string_sound_l. Qed.
+Print Assumptions comp_opt_string_sound.
+
+(* ---- refusal of out-of-range values ----
+   create: whatever it accepts lies inside the ranges of the format (literals of doc/format.adoc), so a level / window /
+   dictionary size / lc / lp / pb / flag outside is refused *)
+Theorem comp_refuses_out_of_range : forall fx avail c st,
+  compressor_create fx avail c = Ok st -> cfg_in_range c.
+Proof. exact comp_refuses_out_of_range_l. Qed.
+Print Assumptions comp_refuses_out_of_range.
+
+(* read_options: gzip level 1..9, window 8..15, strategy bits; xz dictionary shape test and filter bits *)
+Theorem gzip_read_refuses : forall fx s img s',
+  read_options fx (SGzip s) img = (Ok tt, SGzip s') ->
+  1 <= gz_level s' <= 9 /\ 8 <= gz_window s' <= 15 /\ N.ldiff (gz_strategies s') 31 = 0.
+Proof. exact gzip_read_refuses_l. Qed.
+Print Assumptions gzip_read_refuses.
+Theorem xz_read_refuses : forall fx s img s',
+  read_options fx (SXz s) img = (Ok tt, SXz s') ->
+  is_dict_size_valid fx (xz_dictsz s') = true /\ xz_dictsz s' < two32 /\ N.ldiff (xz_flags s') 319 = 0.
+Proof. exact xz_read_refuses_l. Qed.
+Print Assumptions xz_read_refuses.
+(* the option parser: a value is stored only if it passed the range test of its table row *)
+Theorem comp_opt_step_range : forall fx c o v c', step fx c o v = inr c' ->
+  (o = None /\ exists name, v = Some name /\ set_flag c name = Some c') \/
+  (exists name, o = Some co_OPT_ALG /\ opt_avail (c_id c) co_OPT_ALG = true /\ v = Some name /\ find_lzo_alg c name = Some c') \/
+  (exists i ival, o = Some i /\ i <> co_OPT_ALG /\ opt_avail (c_id c) i = true /\
+     (fst (range_of (c_id c) i) <= ival <= snd (range_of (c_id c) i))%Z /\ c' = assign c i ival).
+Proof. exact step_inv. Qed.
+Print Assumptions comp_opt_step_range.
+
+(* ---- findings: the code as found violates the full-strength statements in four places ---- *)
+(* F26  xz.c is_dict_size_valid accepts any run of adjacent one bits: create accepts, and write_options stores, a
+   dictionary size that is neither 2^n nor 2^n + 2^(n+1) (the Linux kernel refuses to mount such an image) *)
+Theorem xz_dict_shape_refuted :
+  exists st, compressor_create as_found build_avail w26_cfg = Ok st /\
+             write_options st = Ok (fmt_block (fmt_xz 14336 0)) /\ dict_shape_ok (xz_dict w26_cfg) = false.
+Proof. exact xz_dict_shape_refuted_l. Qed.
+Print Assumptions xz_dict_shape_refuted.
+(* with the repaired test create (and read_options) admit exactly the shapes of the format *)
+Theorem xz_dict_shape_fixed : forall fx avail c st,
+  fx_shape fx = true -> compressor_create fx avail c = Ok st -> c_id c = ID_XZ -> dict_shape_ok (xz_dict c) = true.
+Proof. exact xz_dict_shape_fixed_l. Qed.
+Print Assumptions xz_dict_shape_fixed.
+Theorem xz_read_shape_fixed : forall fx s img s',
+  fx_shape fx = true -> read_options fx (SXz s) img = (Ok tt, SXz s') ->
+  xz_dictsz s' = 0 \/ dict_shape_ok (xz_dictsz s') = true.
+Proof. exact xz_read_shape_fixed_l. Qed.
+Print Assumptions xz_read_shape_fixed.
+Theorem xz_dict_shape_complete : forall fx d, d < two32 -> dict_shape_ok d = true -> is_dict_size_valid fx d = true.
+Proof. exact dict_shape_valid. Qed.
+Print Assumptions xz_dict_shape_complete.
+
+(* xz_read_options accepts what xz_compressor_create rejects (dictionary size 0: no range test), both variants;
+   harmless for the decoder (it does not use the field), visible through get_configuration (sqfsdiff) *)
+Theorem xz_read_accepts_create_rejects_refuted : forall fx,
+  exists st0 st1, reader_default fx build_avail ID_XZ 131072 = Ok st0 /\
+    read_options fx st0 w_xz_zero_img = (Ok tt, st1) /\
+    compressor_create fx build_avail (get_configuration st1) = Err E_UNSUPPORTED.
+Proof. exact xz_read_accepts_create_rejects_refuted_l. Qed.
+Print Assumptions xz_read_accepts_create_rejects_refuted.
+
+(* F27  parse_size.c does not step over the percent sign: NO string containing one is accepted, so the documented
+   "dictsize=<n>%" can never be used *)
+Theorem parse_size_percent_refuted : forall fx s reference,
+  fx_pct fx = false -> In 37 s -> exists d, parse_size fx s reference = inl d.
+Proof. exact parse_size_percent_refuted_l. Qed.
+Print Assumptions parse_size_percent_refuted.
+Example parse_size_percent_fixed : parse_size repaired s_pct 131072 = inr 65536.
+Proof. exact parse_size_percent_fixed_l. Qed.
+
+(* F28  comp_opt.c stores strtol's long and parse_size's size_t into an int and ignores trailing text:
+   "level=4294967305" is accepted as level 9, "dictsize=4294975488" as 8192, "level=9x" as 9 *)
+Theorem comp_opt_number_altered_refuted :
+  (exists c, cfg_init_options as_found ID_XZ 131072 (Some s_level_wrap) = POk c /\ c_level c = 9) /\
+  (exists c, cfg_init_options as_found ID_XZ 131072 (Some s_dict_wrap) = POk c /\ xz_dict c = 8192) /\
+  (exists c, cfg_init_options as_found ID_XZ 131072 (Some s_level_junk) = POk c /\ c_level c = 9).
+Proof. exact comp_opt_number_altered_refuted_l. Qed.
+Print Assumptions comp_opt_number_altered_refuted.
+Example comp_opt_number_altered_fixed :
+  cfg_init_options repaired ID_XZ 131072 (Some s_level_wrap) = PFail (DRange co_OPT_LEVEL 0 9) /\
+  cfg_init_options repaired ID_XZ 131072 (Some s_dict_wrap) = PFail (DRange co_OPT_DICT 8192 1048576) /\
+  cfg_init_options repaired ID_XZ 131072 (Some s_level_junk) = PFail (DRange co_OPT_LEVEL 0 9).
+Proof. exact comp_opt_number_altered_fixed_l. Qed.
+
+(* with the F28 repair a numeric option (level, window, lc, lp, pb) is stored only if its text is an optional minus sign
+   and decimal digits whose VALUE lies in the table row's range, and it is that value which is stored *)
+Theorem comp_opt_number_faithful_fixed : forall fx c o v c',
+  fx_num fx = true -> c_id c < 7 -> step fx c (Some o) (Some v) = inr c' -> o <> co_OPT_ALG -> o <> co_OPT_DICT ->
+  exists (neg : bool) ds, v = (if neg then [45] else []) ++ ds /\ ds <> [] /\ Forall (fun ch => c_isdigit ch = true) ds /\
+    let z := (if neg then - Z.of_N (dec_prefix ds 0) else Z.of_N (dec_prefix ds 0))%Z in
+    (fst (range_of (c_id c) o) <= z <= snd (range_of (c_id c) o))%Z /\ c' = assign c o z.
+Proof. exact comp_opt_number_faithful_fixed_l. Qed.
+Print Assumptions comp_opt_number_faithful_fixed.
+
+(* ---- the C structs / header limits agree with the format description (doc/format.adoc) ---- *)
+Example option_structs_match_format :
+  (forall a b c, mk_struct co_sizeof_gzip_options_t
+     [(co_off_gzip_options_t_level, co_width_gzip_options_t_level, a);
+      (co_off_gzip_options_t_window, co_width_gzip_options_t_window, b);
+      (co_off_gzip_options_t_strategies, co_width_gzip_options_t_strategies, c)] = le 4 a ++ le 2 b ++ le 2 c) /\
+  (forall a b, mk_struct co_sizeof_xz_options_t
+     [(co_off_xz_options_t_dict_size, co_width_xz_options_t_dict_size, a);
+      (co_off_xz_options_t_flags, co_width_xz_options_t_flags, b)] = le 4 a ++ le 4 b) /\
+  (forall a b, mk_struct co_sizeof_lz4_options
+     [(co_off_lz4_options_version, co_width_lz4_options_version, a);
+      (co_off_lz4_options_flags, co_width_lz4_options_flags, b)] = le 4 a ++ le 4 b) /\
+  (forall a, mk_struct co_sizeof_zstd_options_t [(co_off_zstd_options_t_level, co_width_zstd_options_t_level, a)] = le 4 a).
+Proof.
+  split; [intros; apply struct_gzip|split; [intros; apply struct_xz|split; [intros; apply struct_lz4|intros; apply struct_zstd]]].
+Qed.
+Example header_limits_match_format :
+  (co_SQFS_GZIP_MIN_LEVEL, co_SQFS_GZIP_MAX_LEVEL, co_SQFS_GZIP_DEFAULT_LEVEL) = (1, 9, 9) /\
+  (co_SQFS_GZIP_MIN_WINDOW, co_SQFS_GZIP_MAX_WINDOW, co_SQFS_GZIP_DEFAULT_WINDOW) = (8, 15, 15) /\
+  (co_SQFS_XZ_MIN_DICT_SIZE, co_SQFS_XZ_MAX_DICT_SIZE) = (8192, 1048576) /\
+  (co_SQFS_ZSTD_MIN_LEVEL, co_SQFS_ZSTD_MAX_LEVEL, co_SQFS_ZSTD_DEFAULT_LEVEL) = (1, 22, 15) /\
+  (co_SQFS_COMP_FLAG_GZIP_ALL, N.ldiff co_SQFS_COMP_FLAG_XZ_ALL co_SQFS_COMP_FLAG_XZ_EXTREME, co_SQFS_COMP_FLAG_LZ4_HC,
+   co_LZ4LEGACY) = (31, 63, 1, 1) /\
+  (co_SQFS_XZ_DEFAULT_LC, co_SQFS_XZ_DEFAULT_LP, co_SQFS_XZ_DEFAULT_PB, co_SQFS_XZ_DEFAULT_LEVEL) = (3, 0, 2, 6) /\
+  co_SQFS_ZSTD_MAX_LEVEL <= co_ZSTD_maxCLevel /\
+  (* xz and lzma share one member of the union: comp_opt.c writes opt.xz.* for both *)
+  (co_off_opt_lzma_dict_size, co_off_opt_lzma_lc, co_off_opt_lzma_lp, co_off_opt_lzma_pb, co_off_opt_lzma_padd0) =
+  (co_off_opt_xz_dict_size, co_off_opt_xz_lc, co_off_opt_xz_lp, co_off_opt_xz_pb, co_off_opt_xz_padd0).
+Proof. repeat split; vm_compute; congruence. Qed.
+
+(* ---- non-vacuity ---- *)
+(* comp_options_rt on two configurations from the command line, with the bytes *)
+Example ex_string_gzip : cfg_init_options as_found ID_GZIP 131072 (Some s_gzip_good) = POk ex_cfg_gzip.
+Proof. vm_compute. reflexivity. Qed.
+Example ex_string_xz : cfg_init_options as_found ID_XZ 131072 (Some s_xz_good) = POk ex_cfg_xz.
+Proof. vm_compute. reflexivity. Qed.
+Example ex_rt_gzip :
+  In (c_bs ex_cfg_gzip) block_sizes /\
+  match compressor_create as_found build_avail ex_cfg_gzip with
+  | Ok st => is_default st = false /\ write_options st = Ok [8; 128; 3; 0; 0; 0; 10; 0; 8; 0] /\
+             match reader_default as_found build_avail ID_GZIP 131072 with
+             | Ok st0 => match read_options as_found st0 (ex_super_area ++ [8; 128; 3; 0; 0; 0; 10; 0; 8; 0] ++ [7; 7]) with
+                         | (Ok tt, st1) => kept st1 = [3; 10; 8]
+                         | _ => False
+                         end
+             | _ => False
+             end
+  | _ => False
+  end.
+Proof. vm_compute. repeat split; auto 10. Qed.
+Example ex_rt_xz :
+  match compressor_create as_found build_avail ex_cfg_xz with
+  | Ok st => is_default st = false /\ write_options st = Ok [8; 128; 0; 0; 1; 0; 1; 0; 0; 0] /\ kept st = [65536; 1]
+  | _ => False
+  end.
+Proof. vm_compute. repeat split. Qed.
+(* defaults: nothing is written (hypotheses of comp_default_writes_nothing), except ... *)
+Example ex_default_gzip_writes_nothing :
+  In 131072 block_sizes /\
+  match compressor_create as_found build_avail (snd (config_init ID_GZIP 131072 0)) with
+  | Ok st => write_options st = Ok [] | _ => False end.
+Proof. vm_compute. split; auto 10. Qed.
+Example ex_xz_4096_default_writes :
+  match compressor_create as_found build_avail (snd (config_init ID_XZ 4096 0)) with
+  | Ok st => write_options st = Ok (fmt_block (fmt_xz 8192 0)) | _ => False end.
+Proof. vm_compute. reflexivity. Qed.
+(* information the block carries but the reading side drops (no influence on decompression): lz4 HC flag, zstd level *)
+Example ex_lz4_hc_not_read_back :
+  match compressor_create as_found build_avail (MkCfg ID_LZ4 1 131072 0 zero_opt),
+        reader_default as_found build_avail ID_LZ4 131072 with
+  | Ok st, Ok st0 => write_options st = Ok (fmt_block (fmt_lz4 1 1)) /\
+                     snd (read_options as_found st0 (ex_super_area ++ fmt_block (fmt_lz4 1 1))) = st0
+  | _, _ => False
+  end.
+Proof. vm_compute. split; reflexivity. Qed.
+(* hostile options blocks behind a valid super block: out-of-range fields, truncated file, and a good one *)
+Example ex_open_hostile :
+  (exists st, open_image as_found build_avail ex_img_gzip_hostile = OOptions (Err E_UNSUPPORTED) st) /\
+  (exists st, open_image as_found build_avail ex_img_truncated = OOptions (Err E_OOB) st) /\
+  (exists st, open_image as_found build_avail ex_img_gzip_opts = OOptions (Ok tt) st /\ kept st = [3; 10; 8]).
+Proof. repeat split; eexists; vm_compute; try split; reflexivity. Qed.
+(* the option parser refuses values outside its table, with the diagnostic of that row *)
+Example ex_string_refused :
+  cfg_init_options as_found ID_GZIP 131072 (Some s_level_10) = PFail (DRange co_OPT_LEVEL 1 9) /\
+  cfg_init_options as_found ID_GZIP 131072 (Some s_window_16) = PFail (DRange co_OPT_WINDOW 8 15) /\
+  cfg_init_options as_found ID_LZ4 131072 (Some s_level_10) = PFail DOpt /\
+  cfg_init_options as_found ID_XZ 131072 (Some s_dict_pct) = PFail DSizeSuffix /\
+  cfg_init_options as_found 9 131072 None = PFail DInit.
+Proof. vm_compute. repeat split. Qed.
+(* create refuses the neighbours of the range ends *)
+Example ex_create_refuses :
+  compressor_create as_found build_avail (MkCfg ID_GZIP 0 131072 10 (og 15)) = Err E_UNSUPPORTED /\
+  compressor_create as_found build_avail (MkCfg ID_GZIP 0 131072 0 (og 15)) = Err E_UNSUPPORTED /\
+  compressor_create as_found build_avail (MkCfg ID_GZIP 0 131072 9 (og 16)) = Err E_UNSUPPORTED /\
+  compressor_create as_found build_avail (MkCfg ID_GZIP 0 131072 9 (og 7)) = Err E_UNSUPPORTED /\
+  compressor_create as_found build_avail (MkCfg ID_XZ 0 131072 6 (ox 8191 3 0 2)) = Err E_UNSUPPORTED /\
+  compressor_create as_found build_avail (MkCfg ID_XZ 0 131072 6 (ox 1048577 3 0 2)) = Err E_UNSUPPORTED /\
+  compressor_create as_found build_avail (MkCfg ID_XZ 0 131072 6 (ox 131072 3 2 2)) = Err E_UNSUPPORTED /\
+  compressor_create as_found build_avail (MkCfg ID_XZ 0 131072 6 (ox 131072 3 0 5)) = Err E_UNSUPPORTED /\
+  compressor_create as_found build_avail (MkCfg ID_ZSTD 0 131072 23 zero_opt) = Err E_UNSUPPORTED /\
+  compressor_create as_found build_avail (MkCfg ID_LZ4 0 131072 1 zero_opt) = Err E_UNSUPPORTED /\
+  compressor_create as_found build_avail (MkCfg ID_GZIP 0 131072 9 (setk 1 9 1 (og 15))) = Err E_ARG_INVALID /\
+  compressor_create as_found build_avail (MkCfg ID_LZO 0 131072 8 (og 4)) = Err E_UNSUPPORTED.
+Proof. vm_compute. repeat split. Qed.
+(* the dictionary size accepted by the parser but by create only as found (F26); refused with the repair *)
+Example ex_string_dict_shape :
+  match cfg_init_options as_found ID_XZ 131072 (Some s_dict_3bits), cfg_init_options repaired ID_XZ 131072 (Some s_dict_3bits) with
+  | POk c, POk c' => c = c' /\ xz_dict c = 14336 /\
+                     (exists st, compressor_create as_found build_avail c = Ok st) /\
+                     compressor_create repaired build_avail c = Err E_UNSUPPORTED
+  | _, _ => False
+  end.
+Proof. vm_compute. repeat split. eexists. reflexivity. Qed.
+(* the repaired variant accepts what it should (hypotheses of xz_dict_shape_fixed / comp_opt_number_faithful_fixed) *)
+Example ex_repaired_accepts :
+  (exists st, compressor_create repaired build_avail ex_cfg_xz = Ok st) /\
+  cfg_init_options repaired ID_XZ 131072 (Some s_xz_good) = POk ex_cfg_xz /\
+  cfg_init_options repaired ID_GZIP 131072 (Some s_gzip_good) = POk ex_cfg_gzip /\
+  (exists c', step repaired (snd (config_init ID_GZIP 131072 0)) (Some co_OPT_LEVEL) (Some [51]) = inr c' /\ c_level c' = 3) /\
+  cfg_init_options repaired ID_XZ 131072 (Some s_dict_pct) =
+  POk (MkCfg ID_XZ 0 131072 6 (ox 65536 3 0 2)).
+Proof. repeat split; try (eexists; vm_compute; try split; reflexivity); vm_compute; reflexivity. Qed.
